@@ -135,9 +135,21 @@ def style_oracle(case: dict, tmp: Path, tag: str) -> list:
                 if got[a] != ref[a]:
                     fails.append(("unstyled-cell-changed", f"{where}: cell({r},{c}).style.{a} = {got[a]!r}, an unstyled cell of a fresh table has {ref[a]!r}"))
                     return
-        for nm in names:
+        for i, nm in enumerate(names):
             if nm not in dd.styles:
                 fails.append(("style-missing-from-document", f"{where}: Document.styles lacks {nm!r}"))
+                continue
+            # the document's own entry for the style carries the character attributes it was created with (the attributes
+            # Document.styles reads for a reopened document: font, size, colour, bold/italic/underline/strikethrough)
+            want = expected_style(case["styles"][i], nm)
+            try:
+                got = observe_style(dd.styles[nm])
+            except Exception as e:  # noqa: BLE001
+                fails.append(("document-style-differs", f"{where}: reading Document.styles[{nm!r}] raised {type(e).__name__}: {e}"))
+                continue
+            for a in ("bold", "italic", "underline", "strikethrough", "font_name", "font_color", "font_size"):
+                if got[a] != want[a] and not (a in FLOAT_ATTRS and float.fromhex(got[a]) == f32(float.fromhex(want[a]))):
+                    fails.append((f"document-style-differs:{a}", f"{where}: Document.styles[{nm!r}].{a} = {got[a]!r}, the style was created with {want[a]!r}"))
 
     try:
         check(t, "open document", doc)
@@ -358,6 +370,16 @@ STYLE_CORPUS = [
     {"kind": "style", "styles": [{"bold": True, "font_color": [230, 25, 25], "font_size": 14.0, "font_name": "Lucida Grande",
                                   "alignment": ["right", "bottom"], "italic": True, "underline": True, "strikethrough": True}]},
     {"kind": "style", "styles": [{"bg_image": ["a.png", 1], "text_wrap": False}, {"bg_image": ["b.png", 2]}]},
+    # pairs of styles in one table that differ in exactly ONE cell-level attribute (each needs an archive of its own)
+    {"kind": "style", "styles": [{"text_inset": 4.0, "text_wrap": True, "bg_color": [1, 2, 3]}, {"text_inset": 4.0, "text_wrap": False, "bg_color": [1, 2, 3]}]},
+    {"kind": "style", "styles": [{"text_wrap": False}, {"text_wrap": True}, {"text_wrap": False, "bold": True}]},
+    {"kind": "style", "styles": [{"alignment": ["left", "top"], "text_inset": 3.0}, {"alignment": ["left", "middle"], "text_inset": 3.0}, {"alignment": ["left", "bottom"], "text_inset": 3.0}]},
+    {"kind": "style", "styles": [{"first_indent": 2.0, "bg_color": [5, 5, 5]}, {"first_indent": 3.0, "bg_color": [5, 5, 5]}]},
+    {"kind": "style", "styles": [{"left_indent": 2.0}, {"left_indent": 4.0}, {"right_indent": 2.0}, {"right_indent": 4.0}]},
+    {"kind": "style", "styles": [{"text_inset": 2.0}, {"text_inset": 6.0}]},
+    # explicit names of the automatic form, given out of order, followed by styles that get an automatic name
+    {"kind": "style", "styles": [{"name": "Custom Style 2", "bold": True}, {"name": "Custom Style 1", "italic": True}, {"font_size": 17.0}]},
+    {"kind": "style", "styles": [{"name": "Custom Style 7", "bg_color": [9, 9, 9]}, {"name": "Custom Style 3", "underline": True}, {"bold": True}, {"italic": True}]},
 ]
 
 
